@@ -127,13 +127,35 @@ func runFaultStream(seed int64, n int, out, backendSpec, tier string) *RunReport
 				f.failf("cannot run base history: %s", res.Err)
 				continue
 			}
+			var extraTargets []*Op
 			var baseOps []*Op
 			for _, s := range res.Steps {
 				baseOps = append(baseOps, s.Op)
 			}
 			base := bakeIds(baseOps)
+			// every populated collection gets (at least) two more indexes at the end of the base history, so that the point
+			// and bulk writes under faults maintain several indexes
+			for _, c := range h.names {
+				if cst := h.colls[c]; cst != nil && len(cst.ids) > 0 {
+					for _, fld := range []string{"a", "b"} {
+						base = append(base, &Op{Kind: "CreateIndex", Coll: c, Field: fld})
+						has := false
+						for _, x := range cst.indexes {
+							has = has || x == fld
+						}
+						if !has {
+							cst.indexes = append(cst.indexes, fld)
+						}
+					}
+					// and writes that move a document in every one of them
+					extraTargets = append(extraTargets, &Op{Kind: "UpdateById", Coll: c, Id: cst.ids[0], U: Updater{Kind: "funconst", Doc: map[string]interface{}{"_id": cst.ids[0], "a": int64(41), "b": "moved", "x": int64(7)}}})
+					extraTargets = append(extraTargets, &Op{Kind: "Update", Q: QSpec{Coll: c}, KVs: map[string]interface{}{"a": int64(42), "b": int64(43)}})
+					extraTargets = append(extraTargets, &Op{Kind: "DeleteById", Coll: c, Id: cst.ids[0]})
+					break
+				}
+			}
 			baseTerm := opsTerm(base)
-			targets := h.faultTargets(24)
+			targets := append(h.faultTargets(24), extraTargets...)
 			// bulk writes and ForEach through an in-memory sort (the sort node forwards documents in Finish)
 			if c, ok := h.pickExisting(); ok {
 				sorted := QSpec{Coll: c, Steps: []QStep{{Kind: "sort", Opts: []SortOpt{{"s", 1}, {"_id", -1}}}}}
@@ -155,6 +177,9 @@ func runFaultStream(seed int64, n int, out, backendSpec, tier string) *RunReport
 					byIdx := QSpec{Coll: c, Steps: []QStep{{Kind: "sort", Opts: []SortOpt{{fld, 1}}}}}
 					targets = append(targets, &Op{Kind: "FindAll", Q: byIdx, Mode: 2})
 					targets = append(targets, &Op{Kind: "Delete", Q: QSpec{Coll: c, Steps: []QStep{{Kind: "where", C: &Crit{Kind: "cmp", Op: "OGtEq", Field: fld, Val: Operand{Lit: int(-100)}}}}}})
+					// an excluded bound on the side the scan starts from (entries equal to the bound are stepped over first)
+					targets = append(targets, &Op{Kind: "FindAll", Q: QSpec{Coll: c, Steps: []QStep{{Kind: "where", C: &Crit{Kind: "cmp", Op: "OGt", Field: fld, Val: Operand{Lit: int(-100)}}}}}, Mode: 2})
+					targets = append(targets, &Op{Kind: "Update", Q: QSpec{Coll: c, Steps: []QStep{{Kind: "where", C: &Crit{Kind: "cmp", Op: "OLt", Field: fld, Val: Operand{Lit: int(100)}}}, {Kind: "sort", Opts: []SortOpt{{fld, -1}}}}}, KVs: map[string]interface{}{"zq": int64(1)}})
 					break
 				}
 				targets = append(targets, &Op{Kind: "DropCollection", Coll: c})
